@@ -184,15 +184,32 @@ def run_harness(profile, case_lines, features=None, timeout=1800):
         return out, {'rc': p.returncode, 'stderr': p.stderr[-500:], 'n_out': len(out)}
     return out, None
 
-def run_driver(case_lines, impl_lines, timeout=1800):
-    b = os.path.join(LEAN, '.lake', 'build', 'bin', 'flacdrv')
-    inp = '\n'.join(c + '\t' + i for c, i in zip(case_lines, impl_lines)) + '\n'
+def _run_driver_chunk(args):
+    b, inp, timeout = args
     p = subprocess.run([b], input=inp, capture_output=True, text=True, timeout=timeout)
     out = p.stdout.split('\n')
     if out and out[-1] == '':
         out.pop()
-    if p.returncode != 0 or len(out) != len(case_lines):
-        return out, {'rc': p.returncode, 'stderr': p.stderr[-500:], 'n_out': len(out)}
+    return out, p.returncode, p.stderr[-500:]
+
+def run_driver(case_lines, impl_lines, timeout=3600):
+    """the model driver is single-threaded: large runs are split over up to 12 processes"""
+    b = os.path.join(LEAN, '.lake', 'build', 'bin', 'flacdrv')
+    lines = [c + '\t' + i for c, i in zip(case_lines, impl_lines)]
+    n = len(lines)
+    if n == 0:
+        return [], None
+    nproc = 1 if n < 400 else min(12, (n + 399) // 400)
+    size = (n + nproc - 1) // nproc
+    chunks = [lines[k:k + size] for k in range(0, n, size)]
+    from concurrent.futures import ThreadPoolExecutor
+    with ThreadPoolExecutor(max_workers=nproc) as ex:
+        res = list(ex.map(_run_driver_chunk, [(b, '\n'.join(ch) + '\n', timeout) for ch in chunks]))
+    out = []
+    for ch, (o, rc, err) in zip(chunks, res):
+        if rc != 0 or len(o) != len(ch):
+            return out + o, {'rc': rc, 'stderr': err, 'n_out': len(out) + len(o)}
+        out += o
     return out, None
 
 # ------------------------------------------------------------------------------------------------
